@@ -2,3 +2,4 @@ import BufrProps.C05
 #print axioms Bufr.C05.C05_decode_total
 #print axioms Bufr.C05.C05_expansion_bounded
 #print axioms Bufr.C05.C05_reader_in_bounds
+#print axioms Bufr.C05.C05_element_shape
